@@ -502,3 +502,41 @@ Proof.
   - destruct R as [Ho _]. apply step_no_panic; assumption.
   - destruct R as [Hx R]. apply IH; [apply Inv_step; exact I|apply Inv2_step; assumption|exact R].
 Qed.
+
+(* ---------- the payment rule does not panic on two valid allocations of equal dimensions ---------- *)
+Lemma pay_row_no_panic actor j from to : (length from <= length to)%nat -> pay_row actor j from to <> PANIC.
+Proof.
+  revert j to; induction from as [|f from IH]; intros j to L; cbn [pay_row]; [discriminate|].
+  destruct to as [|t to]; [cbn in L; lia|]. cbn [length] in L.
+  destruct (if j =? actor then _ else _); [apply IH; lia|discriminate].
+Qed.
+Lemma pay_rows_no_panic actor n from to :
+  Forall (fun r => length r = n) from -> Forall (fun r => length r = n) to ->
+  (length from <= length to)%nat -> pay_rows actor from to <> PANIC.
+Proof.
+  revert to; induction from as [|f from IH]; intros to Hf Ht L; cbn [pay_rows]; [discriminate|].
+  destruct to as [|t to]; [cbn in L; lia|]. cbn [length] in L.
+  inversion Hf as [|? ? Hf1 Hf2]; subst. inversion Ht as [|? ? Ht1 Ht2]; subst.
+  destruct (pay_row actor 0 f t) eqn:E; try discriminate.
+  - apply IH; [exact Hf2|exact Ht2|lia].
+  - exfalso. apply (pay_row_no_panic actor 0 f t); [lia|exact E].
+Qed.
+Lemma alloc_valid_rect a : alloc_valid a = true ->
+  Forall (fun r => length r = N.to_nat (num_parts (al_bals a))) (al_bals a)
+  /\ length (al_bals a) = length (al_assets a).
+Proof.
+  unfold alloc_valid. intro H. split_and.
+  match goal with H : (len (al_bals a) =? len (al_assets a)) = true |- _ => apply N.eqb_eq in H; rename H into Hd end.
+  split; [|unfold len in Hd; lia].
+  apply Forall_forall. intros r Hr.
+  match goal with H : forallb _ (al_bals a) = true |- _ => rewrite forallb_forall in H; specialize (H r Hr) end.
+  split_and. match goal with H : (len r =? _) = true |- _ => apply N.eqb_eq in H; unfold len in H end. lia.
+Qed.
+Lemma pay_rows_valid_no_panic actor a b : alloc_valid a = true -> alloc_valid b = true ->
+  num_parts (al_bals a) = num_parts (al_bals b) -> al_assets a = al_assets b ->
+  pay_rows actor (al_bals a) (al_bals b) <> PANIC.
+Proof.
+  intros Va Vb Hn Ha. destruct (alloc_valid_rect a Va) as [Ra La], (alloc_valid_rect b Vb) as [Rb Lb].
+  apply (pay_rows_no_panic actor (N.to_nat (num_parts (al_bals a)))); [exact Ra|rewrite Hn; exact Rb|].
+  rewrite La, Lb, Ha. lia.
+Qed.
